@@ -167,13 +167,17 @@ func c07(c *Ctx) {
 			}
 		})
 		// the itab handed out is a fresh allocation of this call (never shared package-level state)
-		freshTab := false
+		freshTab := true
+		nTabStores := 0
 		sharedWhy := ""
 		eachInstr(mi, func(i ssa.Instruction) {
 			if st, ok := i.(*ssa.Store); ok {
 				if fa, ok := st.Addr.(*ssa.FieldAddr); ok && fieldVar(fa.X.Type(), fa.Field).Name() == "Tab" {
+					nTabStores++
 					as := origins(st.Val)
-					freshTab = len(as) > 0
+					if len(as) == 0 {
+						freshTab = false
+					}
 					for _, a := range as {
 						if a.Kind != "alloc" {
 							freshTab = false
@@ -183,6 +187,9 @@ func c07(c *Ctx) {
 				}
 			}
 		})
+		if nTabStores == 0 {
+			freshTab = false
+		}
 		r.Check(freshTab, "C07.R3", "fabricated method table is private to the variable", p.Pos(mi.Pos()), "Tab is a fresh allocation per MakeInterface call",
 			"the fabricated itab comes from shared state ("+sharedWhy+") instead of a fresh allocation: all variables of one interface type share one method table, so mocking a method on one variable redirects the others and slots mocked earlier stay filled")
 		if table == nil {
